@@ -71,9 +71,25 @@ func c18EquivRel(cwd, file, out string) bool {
 	return filepath.Clean(filepath.Join(cwd, out)) == filepath.Clean(abs)
 }
 
+// a table on which the statement can be judged: replacements are non-empty and relative, and no key can
+// match what a replacement produced (keys are absolute, or relative with a first component that no
+// replacement starts with - the mappings are applied one after the other to the rewritten path)
 func c18WellFormed(table map[string]string) bool {
+	first := func(p string) string {
+		if i := strings.IndexByte(p, '/'); i >= 0 {
+			return p[:i]
+		}
+		return p
+	}
+	heads := map[string]bool{}
+	for _, v := range table {
+		heads[first(v)] = true
+	}
 	for k, v := range table {
-		if !strings.HasPrefix(k, "/") || v == "" || strings.HasPrefix(v, "/") {
+		if v == "" || strings.HasPrefix(v, "/") {
+			return false
+		}
+		if !strings.HasPrefix(k, "/") && (k == "" || heads[first(k)]) {
 			return false
 		}
 	}
@@ -470,7 +486,7 @@ func (x *c18Exec) callerField(r *Run, sc c18Scenario, rep c18Replay) {
 // ---- generators ----
 
 func c18Pool(home string) (keys []string, repls []string) {
-	keys = []string{"/a/b", "/a/b/c", "/a/bc", "/opt/x", c18Root + "/w", c18Root + "/w/sub", home}
+	keys = []string{"/a/b", "/a/b/c", "/a/bc", "/opt/x", c18Root + "/w", c18Root + "/w/sub", home, "github.com/acme/app", "vendor/x"} // two relative keys (module-relative file names of -trimpath builds)
 	repls = []string{"~", ".", "$ab", "W", "~work", "$GOPATH/src"}
 	return
 }
@@ -643,6 +659,14 @@ func runC18(r *Run) {
 	}{c18Scenario{Priv: true, Rx: true, FlagAPI: "set", Cwd: c18Root + "/w",
 		Ops: []c18Op{{Kind: "rxadd", K: `/pkg/mod/[^/]+/`, V: "/mod/"}, {Kind: "rxadd", K: `/node_modules/`, V: "/nm/"}, {Kind: "add", K: "/opt/x", V: "X"}}},
 		[]string{home + "/go/pkg/mod/example.com/lib/a.go", home + "/p/node_modules/q/i.js", "/opt/x/pkg/mod/m/f.go", "/opt/x/node_modules/f.js", "/srv/pkg/mod/m/f.go", home + "/plain/f.go"}})
+	// relative file names (module-relative in -trimpath builds) under a relative key, next to it, and matched by a regexp
+	corpus = append(corpus, struct {
+		sc    c18Scenario
+		paths []string
+	}{c18Scenario{Priv: true, Rx: true, FlagAPI: "set", Cwd: c18Root + "/w",
+		Ops: []c18Op{{Kind: "add", K: "github.com/acme/app", V: "ACME"}, {Kind: "add", K: "vendor/x", V: "VX"}, {Kind: "rxadd", K: `/node_modules/`, V: "/nm/"}}},
+		[]string{"github.com/acme/app/internal/db/a.go", "github.com/acme/apple/x.go", "github.com/acme/app", "vendor/x/y/z.go", "vendor/xy/z.go",
+			"a/node_modules/b.js", "github.com/acme/app/node_modules/b.js", "other/rel.go"}})
 	for _, c := range corpus {
 		x.run(r, c.sc, c.paths, reps, "corpus")
 	}
